@@ -9,6 +9,7 @@ import (
 	"math/rand"
 	"runtime"
 	"strings"
+	"sync"
 	"time"
 
 	"github.com/bnb-chain/tss-lib/v2/common"
@@ -52,11 +53,14 @@ func init() {
 }
 
 type failingReader struct {
+	mu   sync.Mutex
 	r    io.Reader
 	left int
 }
 
 func (f *failingReader) Read(p []byte) (int, error) {
+	f.mu.Lock()
+	defer f.mu.Unlock()
 	if f.left <= 0 {
 		return 0, errors.New("entropy source failed")
 	}
@@ -134,16 +138,23 @@ func runC19(r *Run, rng *rand.Rand, thorough bool) {
 			conc := []int{1, 2, 4, 8}[(rep+bl)%4]
 			var sgps []*common.GermainSafePrime
 			var err error
-			ok := within(120*time.Second, func() {
-				sgps, err = common.GetRandomSafePrimesConcurrent(context.Background(), bl, num, conc, rand.New(rand.NewSource(rng.Int63())))
+			wd := 20 * time.Second
+			if bl > 64 {
+				wd = 120 * time.Second
+			}
+			// the context is only cancelled after the watchdog has fired, to stop the spinning workers
+			ctx, cancel := context.WithCancel(context.Background())
+			ok := within(wd, func() {
+				sgps, err = common.GetRandomSafePrimesConcurrent(ctx, bl, num, conc, newLockedRand(rng.Int63()))
 			})
+			cancel()
 			r.Evals++
 			r.Dist[fmt.Sprintf("safe-primes/bits=%d", bl)]++
 			if !ok {
 				r.Assert(false, "common.GetRandomSafePrimesConcurrent/returns", "generator-returns", func() string {
-					return fmt.Sprintf("bitLen=%d num=%d concurrency=%d did not return within 120 s", bl, num, conc)
+					return fmt.Sprintf("bitLen=%d num=%d concurrency=%d did not return within %v", bl, num, conc, wd)
 				})
-				continue
+				break
 			}
 			r.Distinct++
 			r.Assert(err == nil && len(sgps) == num, "common.GetRandomSafePrimesConcurrent/count", "requested-number-of-pairs", func() string { return fmt.Sprint(bl, num, conc, err) })
@@ -168,7 +179,7 @@ func runC19(r *Run, rng *rand.Rand, thorough bool) {
 		var err error
 		start := time.Now()
 		ok := within(20*time.Second, func() {
-			_, err = common.GetRandomSafePrimesConcurrent(ctx, 1024, 2, 4, rand.New(rand.NewSource(rng.Int63())))
+			_, err = common.GetRandomSafePrimesConcurrent(ctx, 1024, 2, 4, newLockedRand(rng.Int63()))
 		})
 		el := time.Since(start)
 		cancel()
@@ -181,7 +192,7 @@ func runC19(r *Run, rng *rand.Rand, thorough bool) {
 	for _, n := range []int{0, 1, 100, 5000} {
 		var err error
 		ok := within(20*time.Second, func() {
-			_, err = common.GetRandomSafePrimesConcurrent(context.Background(), 512, 2, 3, &failingReader{r: rand.New(rand.NewSource(rng.Int63())), left: n})
+			_, err = common.GetRandomSafePrimesConcurrent(context.Background(), 512, 2, 3, &failingReader{r: newLockedRand(rng.Int63()), left: n})
 		})
 		r.Evals++
 		r.Assert(ok && err != nil, "common.GetRandomSafePrimesConcurrent/entropy-failure", "stops-with-error-when-entropy-source-fails", func() string { return fmt.Sprint(n, ok, err) })
@@ -242,7 +253,7 @@ func runC19(r *Run, rng *rand.Rand, thorough bool) {
 	}
 	// NTilde generation from small safe primes
 	for i := 0; i < 5; i++ {
-		sg, err := common.GetRandomSafePrimesConcurrent(context.Background(), 32+4*i, 2, 2, rand.New(rand.NewSource(rng.Int63())))
+		sg, err := common.GetRandomSafePrimesConcurrent(context.Background(), 32+4*i, 2, 2, newLockedRand(rng.Int63()))
 		if err != nil || sg[0].SafePrime().Cmp(sg[1].SafePrime()) == 0 {
 			continue
 		}
@@ -266,7 +277,7 @@ func runC19(r *Run, rng *rand.Rand, thorough bool) {
 		var pp *ecdsakeygen.LocalPreParams
 		var err error
 		ok := within(25*time.Minute, func() {
-			pp, err = ecdsakeygen.GeneratePreParamsWithContextAndRandom(context.Background(), rand.New(rand.NewSource(rng.Int63())), 16)
+			pp, err = ecdsakeygen.GeneratePreParamsWithContextAndRandom(context.Background(), newLockedRand(rng.Int63()), 16)
 		})
 		r.Evals++
 		r.Assert(ok && err == nil && pp != nil, "keygen.GeneratePreParams/returns", "full-size-preparams-generated", func() string { return fmt.Sprint(ok, err) })
